@@ -224,8 +224,14 @@ def reload_cases(tier, seed):
         for j in range(steps + 1):
             if j == at:
                 new = copy.deepcopy(cfg)
-                kind = rng.choice(["deb", "queue", "journal", "rules", "invalid", "illtyped", "badjournal", "badjournal"])
-                if kind == "deb":
+                kind = rng.choice(["deb", "queue", "journal", "rules", "invalid", "illtyped", "badjournal", "badjournal", "stamp", "stamp"])
+                if kind == "stamp":
+                    # the journal stays where it is; only the way its lines are stamped changes (alone, or together
+                    # with the way versions are named): every later line must carry the new stamp
+                    new.jpat = rng.choice([p_ for p_ in ["", "x", "t%s-", "%s"] if p_ != new.jpat])
+                    if rng.random() < 0.5:
+                        new.vpat = "w%s"
+                elif kind == "deb":
                     new.deb = rng.choice([0, 5])
                 elif kind == "queue":
                     new.queue = wc.R + "/k/var/queue2"
@@ -271,7 +277,7 @@ def reload_cases(tier, seed):
         s.tick(6)
         s.timeout()
         s.dump()
-        cases.append(("r%d" % i, s.text(), {}))
+        cases.append(("r%d" % i, s.text(), {"stamps": True}))
     return cases
 
 
@@ -387,7 +393,7 @@ def main(rep):
     rep.cov["rule"] = ("configuration files as finite lists of assignments of literals to settings and to keys of table-valued settings: every single setting x every value "
                        "class (well-typed strings incl. empty / non-ASCII, numbers incl. 0, negative, non-integral, booleans, tables incl. non-string keys, nil), key operations, "
                        "random subsets of 2-3 settings; loaded by the real load_config with liblua 5.3 and judged against a restatement of the documentation; plus handler "
-                       "histories in which the watched configuration file is rewritten (new debounce / queue / journal / rules / invalid) at every position")
+                       "histories in which the watched configuration file is rewritten (new debounce / queue / journal / journal stamp pattern / rules / invalid / ill-typed / journal that cannot be opened) at every position; every journal line must carry the stamp pattern of the configuration in force")
     rep.cov["samples"] = [render(cases[40][1])[0].split("\n"), render(cases[-1][1])[0].split("\n")]
     vlib.conclude_proofs(rep, found)
 
